@@ -221,6 +221,20 @@ func c14(p *Pkg, _ *Pkg, payload json.RawMessage, res *Result) {
 					try("header", op.Method, op.Path, op.Query, h, mkBody(op.Body, op.HasBody), base+" "+hn+"="+variant)
 				}
 			}
+			// (4b) protocol headers a client or proxy may add to any request (conditional requests, ranges,
+			// content negotiation, CORS preflight fields, hop-by-hop), one at a time and as first/second request
+			for _, ph := range [][2]string{{"If-None-Match", "*"}, {"If-None-Match", `"x", W/"y"`}, {"If-Match", "*"}, {"If-Modified-Since", "Mon, 02 Jan 2090 15:04:05 GMT"},
+				{"If-Modified-Since", "garbage"}, {"If-Unmodified-Since", "Mon, 02 Jan 2006 15:04:05 GMT"}, {"If-Range", `"x"`}, {"Range", "bytes=0-0"}, {"Range", "bytes=9-1"}, {"Range", "x"},
+				{"Accept", "*/*"}, {"Accept", "application/xml;q=0"}, {"Accept-Encoding", "gzip, br"}, {"Accept-Language", "de"}, {"Expect", "100-continue"}, {"Connection", "upgrade"},
+				{"Upgrade", "websocket"}, {"Origin", "https://o.example"}, {"Access-Control-Request-Method", "GET"}, {"Access-Control-Request-Headers", "x-a, x-b"},
+				{"Content-Type", "text/plain"}, {"Content-Type", ""}, {"Content-Type", "application/json; charset=latin1"}, {"Content-Length", "-1"}, {"Transfer-Encoding", "chunked"},
+				{"Cookie", "a=b; c"}, {"X-Forwarded-For", "1.2.3.4"}, {"X-HTTP-Method-Override", "DELETE"}, {"Host", ""}} {
+				for rep := 0; rep < 2; rep++ {
+					h := mkHdr(op)
+					h.Set(ph[0], ph[1])
+					try("protocol-header", op.Method, op.Path, op.Query, h, mkBody(op.Body, op.HasBody), fmt.Sprintf("%s %s: %s (request #%d)", base, ph[0], ph[1], rep+1))
+				}
+			}
 			// credentials: every subset of credential headers removed / invalid (alternatives and conjunctions)
 			for mask := 0; mask < 1<<len(pl.Creds); mask++ {
 				for _, inval := range []bool{false, true} {
